@@ -49,6 +49,8 @@ def generate(rng, tier='quick', **kw):
                 'timeout': rng.choice([0.05, 0.5, 2.0]) if late else rng.choice([0.5, 2.0]),
                 'svc': {'delay': rng.choice([0.001, 0.005, 0.02, 0.08, 0.08, 0.15]) if late else rng.choice([0.001, 0.005, 0.02, 0.08]),
                         'error': rng.choice([0, 0, 0, 0, 0, 2, 7, 6])}})
+    if rng.random() < 0.08:
+      ops[-1]['svc'].update({'multi': rng.randint(1, 3), 'multi_topic': rng.random() < 0.3})
   # topics nobody produces to, with the odd shapes a broker legitimately reports:
   # no partitions (being created), several replicas, a short in-sync list
   extra = {}
@@ -69,7 +71,7 @@ def generate(rng, tier='quick', **kw):
 
 def run(scn):
   import gevent
-  from peers.kafka_broker import KafkaBroker, API_METADATA, API_PRODUCE, encode_metadata, encode_produce_response
+  from peers.kafka_broker import KafkaBroker, API_METADATA, API_PRODUCE, encode_metadata, encode_produce_response, encode_produce_response_multi
   from sim.calls import CallTracker, exc_name
   from sim.child import REC, install_net
   from sim.loop import CLOCK, SimLoop
@@ -95,6 +97,7 @@ def run(scn):
   tracker.id_from_args = lambda args, kwargs: by_list.get(id(args[1])) if len(args) > 1 else None
   matched = {}
   sent_meta, got_meta = [], []
+  sent_produce, got_produce = [], []
 
   class W(object):
     def on_kafka_request(self, broker, conn, req):
@@ -139,7 +142,19 @@ def run(scn):
       off = broker.next_offset
       part = pr[0]['partitions'][0]['partition']
       call.extra.setdefault('replies', []).append((pr[0]['topic'], part, err, off))
-      out = encode_produce_response(corr, pr[0]['topic'], part, err, off)
+      entries = [(pr[0]['topic'], part, err, off)]
+      if spec.get('multi'):
+        # a response that also reports other partitions / another topic (the
+        # decoder must return exactly these entries; the router then rejects it)
+        groups = [(pr[0]['topic'], [(part, err, off)] + [(part + 1 + j, 0, off + 10 + j) for j in range(spec['multi'])])]
+        if spec.get('multi_topic'):
+          groups.append((b'other', [(0, 0, 7)]))
+        entries = [(t, p_, e_, o_) for t, ps in groups for (p_, e_, o_) in ps]
+        out = encode_produce_response_multi(corr, groups)
+        call.extra['multi'] = True
+      else:
+        out = encode_produce_response(corr, pr[0]['topic'], part, err, off)
+      sent_produce.append(entries)
       conn.server_send(struct.pack('!i', len(out)) + out, spec.get('delay', 0.001))
       if err:
         REC.probe('error_code_reply')
@@ -159,6 +174,8 @@ def run(scn):
     rv = getattr(ret, 'return_value', None)
     if isinstance(rv, MetadataResponse):
       got_meta.append(rv)
+    elif isinstance(rv, list) and rv and all(isinstance(x, ProduceResponse) for x in rv):
+      got_produce.append([tuple(x) for x in rv])
     return ret
   KafkaProtocol.DeserializeMessage = deser
   uri = 'tcp://' + ','.join('k%d:%d' % (i, 9092 + i) for i in scn['bootstrap'])
@@ -241,6 +258,15 @@ def run(scn):
                     'decoded metadata differs from what the broker encoded: topics decoded %r, encoded %r' % (
                       sorted(g[1]), sorted(w[1]) if w else None),
                     {'topics_lost': bool(w and set(w[1]) - set(g[1]))})
+  # produce responses decode to exactly the entries the broker encoded
+  for g in got_produce:
+    if len(g) > 1:
+      REC.probe('multi_entry_produce_response')
+    if g not in sent_produce:
+      REC.violation('C15', 'produce_response_mismatch',
+                    'decoded produce response %r is not one the broker encoded (e.g. %r)' % (
+                      g[:4], [e for e in sent_produce if len(e) == max(1, len(g))][:1]),
+                    {'entries': min(len(g), 3)})
   # correlation ids unique per connection among unanswered requests is covered by C11's tag oracle;
   # here: each reply reached the call whose request carried its correlation id
   order_sent, order_done = [], []
